@@ -378,7 +378,8 @@ func parseDefaultValue(typ *ast.Type, defaultValue interface{}) *ast.Value {
 	if literal, ok := defaultValue.(string); ok {
 		if v := parseLiteral(literal); v != nil && v.Kind != ast.EnumValue && v.Kind != ast.Variable {
 			stringLike := !isArray && (kindStr == "String" || kindStr == "ID")
-			if !stringLike || v.Kind == ast.StringValue || v.Kind == ast.BlockValue {
+			// null is a value of every type: `s: String = null` is not the string "null"
+			if !stringLike || v.Kind == ast.StringValue || v.Kind == ast.BlockValue || v.Kind == ast.NullValue {
 				return v
 			}
 		}
